@@ -20,14 +20,14 @@ Theorem C04_user_bounds_kept : forall cc d a id,
 Proof. exact user_bounds_kept. Qed.
 Print Assumptions C04_user_bounds_kept.
 
-(** implicit delegation: the derived trait on the (generic) single field *)
+(** implicit delegation: the derived trait on the (generic) single field, plus the user's predicates *)
 Theorem C04_bounds_implicit : forall cc d,
   plain d -> d_fmt d = None ->
   d_generate_bounds cc d =
     match fl (d_fields d) with
     | f :: _ => if contains_generics (d_params d) (fty f) then [BTy (ftid f) (d_trait d)] else []
     | [] => []
-    end.
+    end ++ map BUser (d_user_bounds d).
 Proof. exact bounds_implicit. Qed.
 Print Assumptions C04_bounds_implicit.
 
